@@ -121,8 +121,11 @@ def w_wrap(ki: int, seed: int, thorough: bool) -> Part:
         for plain in (frames[0], min(frames, key=len)):
             s2 = make_session(key, 1, 0)
             frame, _ = KNXIPFrame.from_knx(plain)
-            first = s2.encrypt_frame(frame).to_knx()
-            s2.decrypt_frame(KNXIPFrame.from_knx(ipsec.wrap(key, 1, (9).to_bytes(6, "big"), XKNX_SERIAL_NUMBER, MESSAGE_TAG_TUNNELLING, plain))[0])
+            try:
+                first = s2.encrypt_frame(frame).to_knx()
+                s2.decrypt_frame(KNXIPFrame.from_knx(ipsec.wrap(key, 1, (9).to_bytes(6, "big"), XKNX_SERIAL_NUMBER, MESSAGE_TAG_TUNNELLING, plain))[0])
+            except Exception:  # noqa: BLE001  (the first session on its own is judged above)
+                continue
             for sid2 in (2, 0xFFFF):
                 s2.session_id = sid2
                 s2._sequence_number = 0  # noqa: SLF001
